@@ -379,3 +379,95 @@ func VerifC16SymbolDigest(v Value) string {
 func VerifC16WellKnownSymbols() []*Symbol {
 	return []*Symbol{SymHasInstance, SymIsConcatSpreadable, SymIterator, SymMatch, SymMatchAll, SymReplace, SymSearch, SymSpecies, SymSplit, SymToPrimitive, SymToStringTag, SymUnscopables}
 }
+
+// VerifC16InstallStashProbe defines a global function __probe() in r.  Called from script code (typically from inside
+// an eval that has just declared a `var`), it walks the current scope chain exactly like bindVars.exec does and renders
+// it: one item per stash, innermost first — O (object scope: with / global), V (isVariable) or B (block), followed by
+// `-` (no names map), `s` (the names map IS one of the maps compiled into prg or a Program nested in it, i.e. shared by
+// every Runtime running prg) or `o` (a map of its own) — then `|target=` with the item of the stash bindVars would
+// create bindings in.  Renderings of calls with a truthy argument (__probe(1): "this eval has just declared a var") are appended to the returned log.  `target=Vs` / `target=Bs` means a
+// dynamically created binding was written into a Program-owned map.
+func VerifC16InstallStashProbe(r *Runtime, prg *Program) *[]string {
+	shared := map[uintptr]bool{}
+	seen := map[*Program]bool{}
+	progType := reflect.TypeOf((*Program)(nil))
+	var walkPrg func(p *Program)
+	var walkVal func(v reflect.Value, depth int)
+	walkVal = func(v reflect.Value, depth int) {
+		if depth > 5 {
+			return
+		}
+		switch v.Kind() {
+		case reflect.Ptr:
+			if v.IsNil() {
+				return
+			}
+			if v.Type() == progType {
+				walkPrg((*Program)(v.UnsafePointer()))
+				return
+			}
+			if v.Elem().Kind() == reflect.Struct {
+				walkVal(v.Elem(), depth+1)
+			}
+		case reflect.Struct:
+			t := v.Type()
+			for i := 0; i < v.NumField(); i++ {
+				f := v.Field(i)
+				if f.Kind() == reflect.Map && t.Field(i).Name == "names" && !f.IsNil() {
+					shared[f.Pointer()] = true
+				} else if f.Kind() == reflect.Ptr || f.Kind() == reflect.Struct {
+					walkVal(f, depth+1)
+				}
+			}
+		}
+	}
+	walkPrg = func(p *Program) {
+		if p == nil || seen[p] {
+			return
+		}
+		seen[p] = true
+		for _, ins := range p.code {
+			walkVal(reflect.ValueOf(ins), 0)
+		}
+	}
+	walkPrg(prg)
+	log := &[]string{}
+	item := func(s *stash) string {
+		k := "B"
+		if s.obj != nil {
+			k = "O"
+		} else if s.isVariable() {
+			k = "V"
+		}
+		switch {
+		case s.names == nil:
+			return k + "-"
+		case shared[reflect.ValueOf(s.names).Pointer()]:
+			return k + "s"
+		}
+		return k + "o"
+	}
+	_ = r.Set("__probe", func(call FunctionCall) Value {
+		var parts []string
+		var target *stash
+		for s := r.vm.stash; s != nil; s = s.outer {
+			parts = append(parts, item(s))
+			if target == nil && s.isVariable() {
+				target = s
+			}
+		}
+		if target == nil {
+			target = r.vm.stash
+		}
+		t := "none"
+		if target != nil {
+			t = item(target)
+		}
+		res := strings.Join(parts, ",") + "|target=" + t
+		if call.Argument(0).ToBoolean() { // __probe(1): "this eval has just declared a var" — only those are logged
+			*log = append(*log, res)
+		}
+		return asciiString(res)
+	})
+	return log
+}
